@@ -13,6 +13,9 @@
 #include "iogateway/MiniPacketTunnelIOGateway.h"  // C12
 #include "util/PulseNode.h"   // C20
 
+#include "reflector/DataNode.h"   // C04
+#include "reflector/StorageReflectSession.h"   // C04 (NODE_DEPTH_*)
+
 using namespace muscle;
 
 #define PN(name, expr) printf("N %s %llu\n", name, (unsigned long long)(expr))
@@ -66,6 +69,14 @@ int main()
    PN("INDEX_OP_CLEARED", INDEX_OP_CLEARED);
    PS("PR_NAME_KEYS", PR_NAME_KEYS); PS("PR_NAME_FILTERS", PR_NAME_FILTERS);
    PS("PR_NAME_REMOVED_DATAITEMS", PR_NAME_REMOVED_DATAITEMS);
+   // ---- C04: node tree / subscriptions (reflector/DataNode.h, StorageReflectConstants.h)
+   PN("MUSCLE_MAX_NODE_DEPTH", MUSCLE_MAX_NODE_DEPTH);
+   PN("NODE_DEPTH_SESSIONNAME", NODE_DEPTH_SESSIONNAME);
+   PN("SETDATANODE_FLAG_DONTCREATENODE", SETDATANODE_FLAG_DONTCREATENODE);
+   PN("SETDATANODE_FLAG_DONTOVERWRITEDATA", SETDATANODE_FLAG_DONTOVERWRITEDATA);
+   PN("SETDATANODE_FLAG_QUIET", SETDATANODE_FLAG_QUIET);
+   PN("SETDATANODE_FLAG_ADDTOINDEX", SETDATANODE_FLAG_ADDTOINDEX);
+   PN("SETDATANODE_FLAG_ENABLESUPERCEDE", SETDATANODE_FLAG_ENABLESUPERCEDE);
    // ---- pulse scheduler (C20)
    PN("MUSCLE_TIME_NEVER", MUSCLE_TIME_NEVER);
 
